@@ -42,6 +42,7 @@ def _mk(name, d):
 
 
 CODE_A, CODE_C, CODE_D, CODE_E = bytes([0x45] * 8), bytes([0x11] * 8), bytes(range(0x20, 0x28)), bytes([0x33] * 8)
+CODE_P, CODE_Q, CODE_R, CODE_S, CODE_T, CODE_V = (bytes([0x50 + i] * 8) for i in range(6))
 CONFIGS = {c["name"]: c for c in [
     # full BALTECH naming scheme, security code, no bus-address flag
     _cfg("A", _mk("A", {(0x0202, 0x82): CODE_A, (0x0620, 0x01): (10234).to_bytes(4, "big"),
@@ -66,6 +67,36 @@ CONFIGS = {c["name"]: c for c in [
     # delete entries (None), no names, no code
     _cfg("F", _mk("F", {(0x0404, None): None, (0x0405, 0x01): None, (0x0620, 0x20): None}),
          False, False, False, None, None),
+    # --- identifier version boundaries: 0 is a legal version and must still give an update block ---
+    # full numeric scheme with name, project version 0
+    _cfg("P", _mk("P", {(0x0202, 0x82): CODE_P, (0x0620, 0x01): (20001).to_bytes(4, "big"),
+                        (0x0620, 0x05): (12).to_bytes(2, "big"), (0x0620, 0x02): (34).to_bytes(2, "big"),
+                        (0x0620, 0x07): b"\x00", (0x0620, 0x06): b"VerZero"}),
+         True, False, False, CODE_P, 0),
+    # name-only project, version 0, flag set
+    _cfg("Q", _mk("Q", {(0x0202, 0x82): CODE_Q, (0x0620, 0x07): b"\x00", (0x0620, 0x06): b"Zero",
+                        (0x0620, 0x20): b"\x01"}),
+         True, False, True, CODE_Q, 0),
+    # full numeric scheme WITHOUT a name, project version 0
+    _cfg("R", _mk("R", {(0x0202, 0x82): CODE_R, (0x0620, 0x01): (31000).to_bytes(4, "big"),
+                        (0x0620, 0x05): (7).to_bytes(2, "big"), (0x0620, 0x07): b"\x00"}),
+         True, False, False, CODE_R, 0),
+    # device-settings fallback with device version 0 (no project version at all)
+    _cfg("S", _mk("S", {(0x0202, 0x82): CODE_S, (0x0620, 0x01): (555).to_bytes(4, "big"),
+                        (0x0620, 0x04): b"\x00", (0x0620, 0x03): b"DevZero"}),
+         False, True, False, CODE_S, 0),
+    # highest legal version 99
+    _cfg("T", _mk("T", {(0x0202, 0x82): CODE_T, (0x0620, 0x01): (42).to_bytes(4, "big"),
+                        (0x0620, 0x05): (1).to_bytes(2, "big"), (0x0620, 0x07): b"\x63", (0x0620, 0x06): b"N99"}),
+         True, False, False, CODE_T, 99),
+    # two-byte version values: project 0x002a = 42, and a device version of two zero bytes
+    _cfg("V", _mk("V", {(0x0202, 0x82): CODE_V, (0x0620, 0x07): b"\x00\x2a", (0x0620, 0x06): b"TwoByte",
+                        (0x0620, 0x04): b"\x00\x00", (0x0620, 0x03): b"DevTwo"}),
+         True, True, False, CODE_V, 42),
+    # project version 0 but no security code: no update block; device version 0 with name only
+    _cfg("W", _mk("W", {(0x0620, 0x07): b"\x00", (0x0620, 0x04): b"\x00\x00", (0x0620, 0x03): b"OnlyDev",
+                        (0x0620, 0x20): b"\x01"}),
+         False, True, True, None, 0),
     # --- correspondence only ---
     _cfg("G", _mk("G", {(0x0620, 0x20): b"\x00", (0x0620, 0x07): b"\x01", (0x0620, 0x06): b"Z"}),
          True, False, True, None, 1, strict=False),          # b"\x00" is a non-empty (truthy) value today
@@ -563,6 +594,9 @@ def correspondence(ctx):
             (0, [("da", "A", True), ("da", "C", False), ("da", "D", True), ("wr",), ("da", "E", False)]),
             (2, [("wr",), ("set", "X", 0), ("set", "A", 3), ("dc", "U"), ("da", "U", True), ("wr",)]),
             (0, [("app", 6), ("app", 6), ("set", "A", 0), ("wr",), ("set", "B", 0)]),
+            (0, [("da", "P", False), ("wr",), ("da", "S", True), ("da", "T", False), ("da", "W", True)]),
+            (0, [("da", "Q", True)]), (0, [("da", "R", False)]), (0, [("da", "S", False)]), (0, [("da", "V", True)]),
+            (0, [("da", "W", True), ("dc", "W"), ("dc", "P"), ("dc", "V"), ("da", "V", False), ("wr",)]),
         ]
         cases += [(i, ops, any(not op_allowed(o) for o in ops)) for i, ops in fixed]
         exprs, meta = [], []
@@ -653,13 +687,17 @@ def search(ctx):
     fx = Fixture(ctx.rng)
     try:
         t1, t2 = ("A", "B", "C"), ("D", "E", "F")
+        z1, z2 = ("P", "S", "W"), ("Q", "R", "V")     # identifier version 0 (project / device fallback), 2-byte versions
         if ctx.quick() and not ctx.brokens:
-            plan = [(0, t1, 4), (2, t2, 4), (0, t2, 4), (2, t1, 4), (5, ("E", "C", "B"), 3), (3, ("B", "D", "A"), 3)]
+            plan = [(0, t1, 4), (2, t2, 4), (0, t2, 4), (2, t1, 4), (0, z1, 4), (2, z2, 4),
+                    (5, ("E", "C", "B"), 3), (3, ("B", "D", "A"), 3), (5, ("S", "T", "R"), 3), (3, ("T", "Q", "P"), 3)]
         elif ctx.quick():
             # a proof or the correspondence broke: look harder for the concrete failing history
-            plan = [(0, t1, 5), (2, t2, 4), (0, t2, 4), (2, t1, 4), (5, ("E", "C", "B"), 4), (3, ("B", "D", "A"), 4)]
+            plan = [(0, t1, 5), (2, t2, 4), (0, t2, 4), (2, t1, 4), (0, z1, 4), (2, z2, 4),
+                    (5, ("E", "C", "B"), 4), (3, ("B", "D", "A"), 4), (5, ("S", "T", "R"), 3), (3, ("T", "Q", "P"), 3)]
         else:
-            plan = [(0, t1, 5), (2, t2, 5), (0, t2, 5), (2, t1, 5), (5, ("E", "C", "B"), 4), (3, ("B", "D", "A"), 4)]
+            plan = [(0, t1, 5), (2, t2, 5), (0, t2, 5), (2, t1, 5), (0, z1, 5), (2, z2, 4),
+                    (5, ("E", "C", "B"), 4), (3, ("B", "D", "A"), 4), (5, ("S", "T", "R"), 4), (3, ("T", "Q", "P"), 4)]
         for init_i, triple, depth in plan:
             n, before = 0, len(ctx.fails)
             for d in sorted(set([min(2, depth), min(3, depth), depth])):   # short histories first: minimal replays
